@@ -15,6 +15,7 @@ import sys
 import time
 
 from spec import universe as U
+from standins import guard
 from standins.codec_checks import fail, _imports, unjson
 
 ALPHABET = [0x00, 0x01, 0x02, 0x03, 0x04, 0x05, 0x06, 0x09, 0x0a, 0x0c, 0x13, 0x17, 0x18, 0x1f, 0x23, 0x24, 0x30, 0x31,
@@ -77,6 +78,27 @@ def one(decname, dec, b, spec, error, base):
     return None
 
 
+HUGE_LENGTHS = [bytes.fromhex(h) for h in ('04883fffffffffffffff0102', '30847fffffff0201', '2488ffffffffffffffff04016100',
+                                             '0388100000000000000000ff', '3084ffffffff', '0c857fffffffff41')]
+
+
+def file_one(dec, b, error):
+    """the same octets from a real file object (buffered and unbuffered): an absurd length must not surface as
+    MemoryError / OverflowError from the file layer"""
+    import tempfile
+    for buffering in (-1, 0):
+        with tempfile.TemporaryFile(buffering=buffering) as f:
+            f.write(b)
+            f.seek(0)
+            try:
+                dec.decode(f)
+            except error.PyAsn1Error:
+                pass
+            except Exception as e:
+                return 'real file (buffering=%d): non-library exception %s: %s' % (buffering, type(e).__name__, str(e)[:80])
+    return None
+
+
 def streaming_one(dec, b, spec, error, base):
     s = CountingBytesIO(b)
     try:
@@ -110,12 +132,22 @@ def _chunk(args):
         for dname, dec in (('BER', bd), ('CER', cd), ('DER', dd)):
             for si, spec in enumerate(sp):
                 n += 1
-                why = one(dname, dec, b, spec, error, base)
+                try:
+                    why = guard.run_case(lambda: one(dname, dec, b, spec, error, base), seconds=20)
+                except guard.CaseTimeout:
+                    why = 'does not terminate within 100 s (decode, isValue, prettyPrint, repr)'
                 if why:
                     fails.append({'check': 'malformed', 'T': {'k': 'spec#%d' % si}, 'v': None, 'features': [],
                                   'detail': '%s decoder, %s: %s' % (dname, 'no spec' if spec is None else
                                                                     spec.__class__.__name__, why),
                                   'enc': {'hex': b.hex()}, 'decoder': dname, 'spec_index': si, 'why': why[:60]})
+            if b in HUGE_LENGTHS:
+                n += 1
+                why = file_one(dec, b, error)
+                if why:
+                    fails.append({'check': 'malformed', 'T': {'k': 'file'}, 'v': None, 'features': [],
+                                  'detail': '%s decoder: %s' % (dname, why), 'enc': {'hex': b.hex()}, 'decoder': dname,
+                                  'spec_index': -2, 'why': why[:60]})
             if len(b) <= 4:
                 n += 1
                 why = streaming_one(dec, b, None, error, base)
@@ -159,6 +191,17 @@ def inputs(tier, seed):
         out.append(bytes([9, 3]) + bytes(body))
         if body[0] in (0x83, 0x80):
             out.append(bytes([9, 4]) + bytes(body) + b'\x01')
+    # binary REALs with exponents of 4..6 octets, alone and as the member that makes a record malformed (the error message
+    # prints the value): decoding and printing must not compute the number
+    for eo in (b'\x04\x01\x00\x00\x00', b'\x05\x01\x00\x00\x00\x00', b'\x06\x01\x00\x00\x00\x00\x00',
+               b'\x05\xff\x00\x00\x00\x00'):
+        body = b'\x83' + eo + b'\x01'
+        real = bytes([9, len(body)]) + body
+        out.append(real)
+        out.append(b'\x30\x80' + real + b'\x02\x01\x05\x00\x00')
+        out.append(bytes([0x30, len(real) + 3]) + real + b'\x02\x01\x05')
+        out.append(bytes([0x31, len(real)]) + real)
+    out += HUGE_LENGTHS
     # explicit tags with nothing / too much inside
     out += [b'\xa0\x00', b'\xa0\x80\x00\x00', b'\xa1\x06\x02\x01\x01\x02\x01\x02', b'\xa1\x80\x02\x01\x01\x02\x01\x02\x00\x00']
     # single-edit neighbours of valid encodings
